@@ -215,6 +215,12 @@ impl<Left: Executor, Right: Executor> NestedLoopJoin<Left, Right> {
             self.right_matched = vec![false; self.right_buffer.len()];
         }
 
+        // The width of the left input must be known even if it produces no row at all:
+        // unmatched right rows are padded with that many NULLs.
+        if let Some(first) = self.right_buffer.first() {
+            self.left_cols = self.output_schema.num_columns() - first.len();
+        }
+
         self.right_buffered = true;
         Ok(())
     }
